@@ -149,6 +149,10 @@ SHAPES = [
      "doctext": ["Registers a user-defined macro for later.", "", "A note: this is not a function."]},
     {"k": "cpp_constructor", "doc": 1, "impl": "macro", "types": [], "params": [], "doctext": ["Macro constructor, see the macro note."]},
     {"k": "cpp_member", "doc": 1, "types": ["int"], "params": ["a"], "doctext": ["Not a macro although it says macro."]},
+    # the doc text describes a parameter (':param x:') without stating its type: the declared type is still generated
+    {"k": "cpp_member", "doc": 1, "types": ["int", "str"], "params": ["row", "col"], "doctext": ["Fills.", "", ":param row: the row"]},
+    {"k": "cpp_constructor", "doc": 1, "types": ["bool"], "params": ["deep"], "doctext": [":param deep: copy deeply", ":returns: nothing"]},
+    {"k": "cpp_member", "doc": 1, "types": ["int", "str"], "params": ["row", "col"], "doctext": [":type col: text", ":param col: only the second"]},
 ]
 ATTR_SHAPES = [      # (class name, attribute name, default): defaults spelled like the attribute or like a class
     ("Channel", "level", "level"), ("Channel", "kind", "Channel"), ("Channel", "other", "Base"), ("Channel", "Channel", "v"),
